@@ -167,6 +167,10 @@ class AsyncBridge:
         d._n += 1
         eio_sid = d.eio.generate_id()
         s = async_socket.AsyncSocket(d.eio, eio_sid)
+
+        async def no_wait():
+            return None
+        s.queue.join = no_wait
         d.eio.sockets[eio_sid] = s
         t = D.Transport(d, eio_sid, s, d._n)
         d.transports.append(t)
